@@ -160,6 +160,10 @@ def _real_tx(self, keep_index=False):
         outs.append(out)
     t = Transaction(ins, outs, locktime=f['locktime'], version=f['version'], witness_type=f.get('witness_type', 'segwit'))
     t.version = f['version']
+    # `version` (the bytes that raw() serialises) and `version_int` are separate attributes: the contracts leave version_int unconstrained, so a
+    # digest that took the version from version_int instead of the serialised bytes is caught
+    if 'version_int' in f:
+        t.version_int = f['version_int']
     for k, i in enumerate(t.inputs):
         i.index_n = f['inputs'][k].fields['index_n'] if keep_index else k
     return t
@@ -186,7 +190,7 @@ def _perturb_tx(env, rng):
 
 def _segwit_case(n_in, n_out, sign_id):
     name = 'in%d-out%d-sign%d' % (n_in, n_out, sign_id)
-    TxT = RecordOf(Transaction, version=Bytes(4), locktime=Int(0, 2 ** 32 - 1), witness_type=Const('segwit'),
+    TxT = RecordOf(Transaction, version=Bytes(4), version_int=Int(0, 2 ** 32 - 1), locktime=Int(0, 2 ** 32 - 1), witness_type=Const('segwit'),
                    inputs=FixedList(_InRec, n_in), outputs=FixedList(_OutRec, n_out))
 
     def requires(self, hash_type):
@@ -227,7 +231,7 @@ _InRecLegacy = RecordOf(Input, prev_txid=Bytes(32), output_n=Bytes(4), sequence=
 
 def _legacy_case(n_in, n_out, sign_id, script_type):
     name = 'legacy-%s-in%d-out%d-sign%d' % (script_type, n_in, n_out, sign_id)
-    TxT = RecordOf(Transaction, version=Bytes(4), locktime=Int(0, 2 ** 32 - 1), witness_type=Const('legacy'), size=Const(None),
+    TxT = RecordOf(Transaction, version=Bytes(4), version_int=Int(0, 2 ** 32 - 1), locktime=Int(0, 2 ** 32 - 1), witness_type=Const('legacy'), size=Const(None),
                    inputs=FixedList(_InRecLegacy, n_in), outputs=FixedList(_OutRec, n_out))
 
     def init(self):
@@ -273,7 +277,7 @@ def _legacy_anyindex_case(n_in, k):
     k's script code.  The requested label is a separate argument that is merely EQUAL to the label (as the int produced by range() in
     Transaction.sign is)."""
     name = 'legacy-anyindex-in%d-sign%d' % (n_in, k)
-    TxT = RecordOf(Transaction, version=Bytes(4), locktime=Int(0, 2 ** 32 - 1), witness_type=Const('legacy'), size=Const(None),
+    TxT = RecordOf(Transaction, version=Bytes(4), version_int=Int(0, 2 ** 32 - 1), locktime=Int(0, 2 ** 32 - 1), witness_type=Const('legacy'), size=Const(None),
                    inputs=FixedList(_InRecLegacyAnyIndex, n_in), outputs=FixedList(_OutRec, 1))
 
     def requires(self, sign_id):
@@ -308,7 +312,7 @@ _InElemLegacy = RecordOf(Input, prev_txid=Bytes(32), output_n=Bytes(4), sequence
                          locking_script=Bytes(max=10000, ne=b'\x00'), witnesses=Const([]), unlocking_script=Bytes(max=10000),
                          index_n=Position())
 _OutElem = RecordOf(_Output, value=Int(0, MAX_MONEY), lock_script=Bytes(max=10000, ne=b'\x00'))
-_TxAnyCount = RecordOf(Transaction, version=Bytes(4), locktime=Int(0, 2 ** 32 - 1), witness_type=Const('legacy'), size=Const(None),
+_TxAnyCount = RecordOf(Transaction, version=Bytes(4), version_int=Int(0, 2 ** 32 - 1), locktime=Int(0, 2 ** 32 - 1), witness_type=Const('legacy'), size=Const(None),
                        inputs=ListOf(_InElemLegacy), outputs=ListOf(_OutElem))
 
 
@@ -373,7 +377,7 @@ class raw_legacy_any_count:
 _InElemLegacyMs = RecordOf(Input, prev_txid=Bytes(32), output_n=Bytes(4), sequence=Int(0, 2 ** 32 - 1), value=Int(0, MAX_MONEY),
                            script_type=Const('p2sh_multisig'), witness_type=Const('legacy'), redeemscript=Bytes(max=10000, ne=b'\x00'),
                            locking_script=Bytes(max=10000), witnesses=Const([]), unlocking_script=Bytes(max=10000), index_n=Position())
-_TxAnyCountMs = RecordOf(Transaction, version=Bytes(4), locktime=Int(0, 2 ** 32 - 1), witness_type=Const('legacy'), size=Const(None),
+_TxAnyCountMs = RecordOf(Transaction, version=Bytes(4), version_int=Int(0, 2 ** 32 - 1), locktime=Int(0, 2 ** 32 - 1), witness_type=Const('legacy'), size=Const(None),
                          inputs=ListOf(_InElemLegacyMs), outputs=ListOf(_OutElem))
 
 
@@ -405,7 +409,7 @@ class raw_legacy_ms_any_count:
 _InElemFull = RecordOf(Input, prev_txid=Bytes(32), output_n=Bytes(4), sequence=Int(0, 2 ** 32 - 1), value=Int(0, MAX_MONEY),
                        script_type=Const('sig_pubkey'), witness_type=Const('legacy'), redeemscript=Bytes(max=10000),
                        locking_script=Bytes(max=10000), witnesses=Const([]), unlocking_script=Bytes(max=10000, ne=b'\x00'), index_n=Position())
-_TxAnyCountFull = RecordOf(Transaction, version=Bytes(4), locktime=Int(0, 2 ** 32 - 1), witness_type=Const('legacy'), size=Const(1),
+_TxAnyCountFull = RecordOf(Transaction, version=Bytes(4), version_int=Int(0, 2 ** 32 - 1), locktime=Int(0, 2 ** 32 - 1), witness_type=Const('legacy'), size=Const(1),
                            inputs=ListOf(_InElemFull), outputs=ListOf(_OutElem))
 
 
@@ -442,7 +446,7 @@ class raw_full_any_count:
 _InElemSegwit = RecordOf(Input, prev_txid=Bytes(32), output_n=Bytes(4), sequence=Int(0, 2 ** 32 - 1), value=Int(1, MAX_MONEY),
                          script_type=Const('sig_pubkey'), witness_type=Const('segwit'), redeemscript=Bytes(max=10000, ne=b'\x00', min=1),
                          locking_script=Bytes(max=10000), witnesses=Const([]), unlocking_script=Const(b''), index_n=Position())
-_TxAnyCountSegwit = RecordOf(Transaction, version=Bytes(4), locktime=Int(0, 2 ** 32 - 1), witness_type=Const('segwit'),
+_TxAnyCountSegwit = RecordOf(Transaction, version=Bytes(4), version_int=Int(0, 2 ** 32 - 1), locktime=Int(0, 2 ** 32 - 1), witness_type=Const('segwit'),
                              inputs=ListOf(_InElemSegwit), outputs=ListOf(_OutElem))
 
 
@@ -492,7 +496,7 @@ def _sighash_case(tx_witness, arg_witness):
     """Transaction.signature_hash dispatch: which preimage is hashed for which (transaction, requested) witness type"""
     name = 'dispatch-tx_%s-arg_%s' % (tx_witness, arg_witness)
     use_segwit = (arg_witness or tx_witness) in ('segwit', 'p2sh-segwit')
-    TxT = RecordOf(Transaction, version=Bytes(4), locktime=Int(0, 2 ** 32 - 1), witness_type=Const(tx_witness), size=Const(None),
+    TxT = RecordOf(Transaction, version=Bytes(4), version_int=Int(0, 2 ** 32 - 1), locktime=Int(0, 2 ** 32 - 1), witness_type=Const(tx_witness), size=Const(None),
                    inputs=FixedList(_InRec if use_segwit else _InRecLegacy, 1), outputs=FixedList(_OutRec, 1))
 
     def init(self):
@@ -531,7 +535,7 @@ def _full_case(n_in, n_out, segwit, n_wit):
     InT = RecordOf(Input, prev_txid=Bytes(32), output_n=Bytes(4), sequence=Int(0, 2 ** 32 - 1), script_type=Const('sig_pubkey'),
                    witness_type=Const('segwit' if segwit else 'legacy'), unlocking_script=Bytes(max=10000),
                    witnesses=FixedList(Bytes(max=10000), n_wit if segwit else 0), index_n=Int(0, 10))
-    TxT = RecordOf(Transaction, version=Bytes(4), locktime=Int(0, 2 ** 32 - 1), witness_type=Const('segwit' if segwit else 'legacy'), size=Const(1),
+    TxT = RecordOf(Transaction, version=Bytes(4), version_int=Int(0, 2 ** 32 - 1), locktime=Int(0, 2 ** 32 - 1), witness_type=Const('segwit' if segwit else 'legacy'), size=Const(1),
                    inputs=FixedList(InT, n_in), outputs=FixedList(_OutRec, n_out))
 
     def view(self):
